@@ -111,8 +111,8 @@ func NewGenWorld(seed int64, toks *Toks) *GenWorld {
 	if r.Intn(2) == 0 {
 		co.MaxGas = int64(300000 + 100000*r.Intn(4))
 	}
-	if r.Intn(3) == 0 {
-		co.MinGasPrice = fmt.Sprint(1 + r.Intn(5))
+	if r.Intn(4) != 0 {
+		co.MinGasPrice = pickMinGasPrice(r, co.BaseFee)
 	}
 	co.CpcDeployErc20Native = r.Intn(2) == 0
 	co.CpcDeployStaking = r.Intn(2) == 0
@@ -255,8 +255,8 @@ func (g *GenWorld) Step() {
 		switch r.Intn(3) {
 		case 0:
 			p := c.App.FeeMarketKeeper.GetParams(c.Ctx())
-			p.MinGasPrice = sdkmath.LegacyNewDec(int64(r.Intn(6)))
-			if r.Intn(2) == 0 {
+			p.MinGasPrice = sdkmath.LegacyMustNewDecFromStr(pickMinGasPrice(r, p.BaseFee.Int64()))
+			if r.Intn(3) == 0 {
 				p.BaseFee = sdkmath.NewInt(int64(5 + r.Intn(200)))
 			}
 			st, _ := GovMsg(c, &feemarkettypes.MsgUpdateParams{Authority: govAuthority(), Params: p})
@@ -294,6 +294,40 @@ func (g *GenWorld) Step() {
 	}
 	for _, r := range bo.Res.TxResults {
 		g.Hist[fmt.Sprintf("ethtx.code%d", r.Code)]++
+	}
+}
+
+// pickMinGasPrice chooses a global min gas price relative to a base fee: mostly with a fractional part (x.5, x.75, 0.9),
+// below and above the base fee.  The fee market's floor of the base fee is the TRUNCATED min gas price, so a base fee that
+// has decayed onto its floor sits strictly below a fractional min gas price.
+func pickMinGasPrice(r *rand.Rand, baseFee int64) string {
+	if baseFee < 2 {
+		baseFee = 2
+	}
+	if baseFee > 200 {
+		baseFee = 200
+	}
+	switch r.Intn(10) {
+	case 0:
+		return "0"
+	case 1:
+		return fmt.Sprint(1 + r.Intn(5))
+	case 2:
+		return "0.9"
+	case 3:
+		return fmt.Sprintf("%d.5", baseFee/2)
+	case 4:
+		return fmt.Sprintf("%d.75", baseFee-1-int64(r.Intn(int(baseFee/2)+1))/2)
+	case 5:
+		return fmt.Sprintf("%d.25", baseFee/3+1)
+	case 6:
+		return fmt.Sprintf("%d.5", baseFee+2)
+	case 7:
+		return fmt.Sprintf("%d.75", baseFee+10)
+	case 8:
+		return fmt.Sprintf("%d.5", baseFee)
+	default:
+		return fmt.Sprintf("%d.000000000000000001", 3+r.Intn(20))
 	}
 }
 
@@ -426,7 +460,10 @@ func (g *GenWorld) Observe(app *chainapp.Evermint, ctx sdk.Context) trace.M {
 		fmKeys++
 	}
 	fit.Close()
-	fmObs := trace.M{"baseFee": trace.I(fp.BaseFee.BigInt()), "minGasPrice": t.T(fp.MinGasPrice.String()), "keys": fmKeys}
+	fmObs := trace.M{"baseFee": trace.I(fp.BaseFee.BigInt()), "minGasPrice": t.T(fp.MinGasPrice.String()), "keys": fmKeys,
+		// for the coverage count only: the base fee sits on the truncated floor of a fractional min gas price
+		"onFracFloor": !fp.MinGasPrice.IsInteger() && fp.BaseFee.Equal(fp.MinGasPrice.TruncateInt()),
+		"belowMinGasPrice": sdkmath.LegacyNewDecFromInt(fp.BaseFee).LT(fp.MinGasPrice)}
 	if rsp, err := app.FeeMarketKeeper.BaseFee(ctx, &feemarkettypes.QueryBaseFeeRequest{}); err == nil && !rsp.BaseFee.IsNil() {
 		fmObs["qBaseFee"] = trace.I(rsp.BaseFee.BigInt())
 	} else {
@@ -703,6 +740,12 @@ func GenGenesis(w *trace.W, o GenesisGenOpts) map[string]int {
 		for blk := 1; blk <= o.Blocks; blk++ {
 			g.Step()
 			if blk%o.Every == 0 || blk == o.Blocks {
+				// idle blocks before some exports: the base fee decays towards (and onto) its floor
+				idle := []int{0, 0, 3, 8, 24}[g.R.Intn(5)]
+				for i := 0; i < idle; i++ {
+					g.C.Deliver()
+				}
+				g.Hist["idle-blocks-before-export"] += idle
 				rec := g.RoundTrip(tid, k)
 				hist := trace.M{}
 				for kk, v := range g.Hist {
